@@ -183,6 +183,8 @@ func (p *Proj) renderAtom(b *strings.Builder, a *Atom) {
 		} else {
 			fmt.Fprintf(b, "def %s(x):\n    return [x, %s%s]\n", a.Name, a.Lit, refs)
 		}
+	case "mfunc": // one half of a pair of mutually recursive helpers
+		fmt.Fprintf(b, "def %s(x):\n    return [%s] if x <= 0 else %s(x - 1)\n", a.Name, a.Lit, a.Refs[0])
 	case "rfunc": // a recursive helper (one of the globals of its own code)
 		fmt.Fprintf(b, "def %s(x):\n    return [%s] if x <= 0 else %s(x - 1)\n", a.Name, a.Lit, a.Name)
 	case "factory":
@@ -468,6 +470,12 @@ func (g *Gen) Project() *Proj {
 		if r.IntN(3) == 0 {
 			f.Atoms = append(f.Atoms, &Atom{Name: "rec" + tag, File: f.ID, Kind: "rfunc", Lit: g.Literal("")})
 		}
+		if r.IntN(3) == 0 {
+			// mutually recursive helpers: different targets enter the cycle at different functions
+			f.Atoms = append(f.Atoms,
+				&Atom{Name: "ping" + tag, File: f.ID, Kind: "mfunc", Lit: g.Literal(""), Refs: []string{"pong" + tag}},
+				&Atom{Name: "pong" + tag, File: f.ID, Kind: "mfunc", Lit: g.Literal(""), Refs: []string{"ping" + tag}})
+		}
 		for lib := range f.Loads {
 			if r.IntN(2) == 0 {
 				f.Atoms = append(f.Atoms, &Atom{Name: "cl" + tag + lib, File: f.ID, Kind: "closure", Lit: fmt.Sprint(r.IntN(70000)), Refs: []string{lib + "_mk"}})
@@ -580,7 +588,7 @@ func (g *Gen) use(t *Tgt, a *Atom) {
 		if strings.HasPrefix(a.Lit, "list(range(") {
 			expr = "len(" + a.Name + ")" // keep repr small; the value still enters the environment
 		}
-	case "func", "rfunc":
+	case "func", "rfunc", "mfunc":
 		expr = fmt.Sprintf("%s(%d)", a.Name, g.R.IntN(9))
 	case "factory":
 		expr = fmt.Sprintf("%s(%d)()", a.Name, g.R.IntN(9))
